@@ -545,3 +545,90 @@ func ZZ_C10_HybridGetAfterClose() {
 	}
 	vfAssert("nothing-resident-after-close", s.Len() == 0)
 }
+
+// reload: SaveCache, then LoadCache into a new store that uses the same secondary tier (which outlives the store).
+func (h *zzHyb) reload() {
+	w := vfGhostStream()
+	err := h.s.Persist(1, w)
+	vfAssert("reload:save-succeeds", err == nil)
+	old := h.s
+	dst := NewStore[uint64, uint64](&StoreOptions[uint64, uint64]{
+		MaxSize: 1, SecondaryCache: h.sec, Workers: vfConfig("WORKERS", 1), Probability: 1,
+		Listener: func(k, v uint64, r RemoveReason) { h.notes = append(h.notes, zzNote{k, v, r}) },
+	})
+	vfQuiesce()
+	err = dst.Recover(1, vfStreamReader(w))
+	vfAssert("reload:load-succeeds", err == nil)
+	old.Close()
+	h.s = dst
+}
+
+// ZZ_C14_SeqX: the sequential hybrid histories of ZZ_C14_Seq with two more operations: a save/load round trip
+// into a new store over the same secondary tier, and (FAIL=1) secondary writes that fail by choice. One client,
+// N operations out of: Set k1 (with / without TTL), Set k2 (pushes k1 out of the one-slot memory tier), hybrid
+// Get k1, hybrid Delete k1, clock advance, reload. A hit carries the last completed Set, is never a deleted or
+// expired value; without failures nothing that was set is lost.
+func ZZ_C14_SeqX() {
+	mayFail := vfConfig("FAIL", 0) == 1
+	h := zzHybNew(1, mayFail)
+	if mayFail {
+		h.lossy = true
+	}
+	N := vfConfig("N", 4)
+	for i := 0; i < N; i++ {
+		menu := 6
+		if vfConfig("RELOAD", 0) == 1 {
+			menu = 7 // the reload doubles the number of background goroutines: thorough tier, short histories only
+		}
+		op := vfChoose("op", menu)
+		s := h.s
+		switch op {
+		case 0, 1:
+			h.next++
+			var ttl int64
+			if op == 1 {
+				ttl = 1 << 29
+			}
+			_, residentBefore := s.shards[zzIndex(s, 1)].hashmap[1]
+			ok := s.Set(1, h.next, 1, time.Duration(ttl))
+			vfAssert("set-accepted", ok)
+			h.live, h.val = true, h.next
+			if ttl != 0 {
+				h.deadline = h.now + ttl
+			} else if !residentBefore || (h.deadline != 0 && h.deadline <= h.now) {
+				h.deadline = 0
+			}
+		case 2:
+			h.next++
+			s.Set(2, h.next, 1, 0)
+		case 3:
+			v, hit, err := s.GetWithSecodary(1)
+			vfAssert("get-no-error", err == nil)
+			expired := h.live && h.deadline != 0 && h.deadline <= h.now
+			if hit {
+				vfReach("hit")
+				vfAssert("hit-only-live-key", h.live)
+				vfAssert("hit-value-is-last-completed-set", v == h.val)
+				vfAssert("hit-not-expired", !expired)
+			} else if h.live && !expired && !h.lossy {
+				vfFail("value-found-in-some-tier")
+			}
+		case 4:
+			err := s.DeleteWithSecondary(1)
+			vfAssert("delete-no-error", err == nil)
+			h.live = false
+			h.deadline = 0
+		case 5:
+			h.now += 1 << 30
+			vfClockSet(h.origin + h.now)
+			s.timerwheel.clock.RefreshNowCache()
+		case 6:
+			h.reload()
+			vfReach("reloaded")
+		}
+		h.settle()
+		vfAssert("memory-tier-within-max-size", h.memCost() <= 1)
+		vfAssert("error-handler-called-per-failure", h.sec.handled == h.sec.failures)
+	}
+	vfReach("sequence-done")
+}
